@@ -24,13 +24,14 @@ var zhiNames = []string{"子", "丑", "寅", "卯", "辰", "巳", "午", "未", 
 func jiaZi(i int) string { return ganNames[i%10] + zhiNames[i%12] }
 
 type c09gen struct {
-	r     *Rng
-	hot   []int
-	inv   bool
-	univ  []ops.Op
-	focus string  // swarm: family of operations this run concentrates on ("" = none)
-	dictP float64 // probability that a year comes from DictYears
-	wide  bool    // wide history: every operation draws a fresh year from the whole range
+	r      *Rng
+	hot    []int
+	inv    bool
+	univ   []ops.Op
+	focus  string  // swarm: family of operations this run concentrates on ("" = none)
+	dictP  float64 // probability that a year comes from DictYears
+	wide   bool    // wide history: every operation draws a fresh year from the whole range
+	lastSx float64
 }
 
 var focusKinds = map[string][]string{
@@ -41,7 +42,7 @@ var focusKinds = map[string][]string{
 	"holiday": {"holiday", "holidays_ym", "holidays_year", "holidays_target", "solar_next", "salary"},
 	"nav":     {"week", "smonth", "season", "halfyear", "syear", "week0", "smonth0", "season0", "halfyear0", "syear0", "week0", "smonth0"},
 	"jd":      {"jd2solar", "jd2solar", "jd2solar", "solar", "solar_next"},
-	"util":    {"su_days", "su_days", "su_between", "solar_rel", "lu_day", "lu_xun", "sx", "foto_xiu"},
+	"util":    {"su_days", "su_days", "su_between", "solar_rel", "lu_day", "lu_xun", "sx", "sx", "sx", "sx", "foto_xiu"},
 	"fortune": {"eightchar", "yun", "bazi"},
 }
 
@@ -277,6 +278,11 @@ func (g *c09gen) baseOp() ops.Op {
 	case "sx":
 		y := g.anyYear()
 		jd := float64(y-2000)*365.2422 + float64(r.Intn(365)) + float64(r.Intn(1000))/1000
+		if g.lastSx != 0 && r.Chance(0.7) {
+			// a neighbour of the previous argument: same lunation / term window, another position in it
+			jd = g.lastSx + []float64{0.01, -0.01, 0.3, -0.3, 1.9, -1.9, 7, -7, 14.5, -14.5, 29}[r.Intn(11)]
+		}
+		g.lastSx = jd
 		return ops.Op{K: k, F: []string{fmt.Sprintf("%.3f", jd)}}
 	case "foto_xiu":
 		return ops.Op{K: k, A: []int{r.Range(1, 12), r.Range(1, 30)}}
@@ -485,6 +491,12 @@ func C09(seed uint64, run int) *spec.Spec {
 		}
 		m, d := r.Range(1, 12), r.Range(1, 29)
 		h, mi, sec := g.hms()
+		y0 := y
+		sweepDown := r.Chance(0.5)
+		if sweep == "lmonth" && r.Chance(0.5) {
+			l := knownLeap[r.Intn(len(knownLeap))]
+			y, m = l[0]-1, r.Range(6, 12)
+		}
 		for i := 0; i < nUniv; i++ {
 			var op ops.Op
 			switch sweep {
@@ -504,9 +516,18 @@ func C09(seed uint64, run int) *spec.Spec {
 					op.A = append(op.A, 2)
 				}
 			case "lyear":
-				op = ops.Op{K: "lyear", A: []int{clampYear(y + i)}}
+				if sweepDown {
+					op = ops.Op{K: "lyear", A: []int{clampYear(y0 - i)}}
+				} else {
+					op = ops.Op{K: "lyear", A: []int{clampYear(y0 + i)}}
+				}
 			default:
-				op = ops.Op{K: "lmonth", A: []int{y, m}}
+				// every month number and its leap-month twin, across year boundaries
+				mm := m
+				if i%2 == 1 {
+					mm = -m
+				}
+				op = ops.Op{K: "lmonth", A: []int{y, mm}}
 			}
 			switch sweep {
 			case "tao", "foto", "ltime", "lyear", "lmonth":
@@ -520,7 +541,9 @@ func C09(seed uint64, run int) *spec.Spec {
 			switch sweep {
 			case "lyear":
 			case "lmonth":
-				m++
+				if i%2 == 1 {
+					m++
+				}
 			default:
 				d++
 				lim := 29
